@@ -26,6 +26,8 @@ def showFV : FV → String
   | .nm n => "n" ++ showName n
   | .b b => "b" ++ toHexP b
   | .bl l => "l" ++ ";".intercalate (l.map toHexP)
+  | .wl l => "w" ++ ";".intercalate (l.map fun p => toString p.1 ++ ":" ++ toHexP p.2)
+  | .nl l => "m" ++ ";".intercalate (l.map showName)
 
 def parseFV (s : String) : Option FV :=
   match s.toList with
@@ -34,6 +36,14 @@ def parseFV (s : String) : Option FV :=
   | 'b' :: r => (ofHex (String.ofList r)).map .b
   | 'l' :: r =>
     if r.isEmpty then some (.bl []) else ((splitOnChar (String.ofList r) ';').mapM ofHex).map .bl
+  | 'm' :: r =>
+    if r.isEmpty then some (.nl []) else ((splitOnChar (String.ofList r) ';').mapM parseName).map .nl
+  | 'w' :: r =>
+    if r.isEmpty then some (.wl [])
+    else ((splitOnChar (String.ofList r) ';').mapM fun item =>
+      match splitOnChar item ':' with
+      | [a, b] => do let w ← a.toNat?; let bm ← ofHex b; some (w, bm)
+      | _ => none).map .wl
   | _ => none
 
 def kv (key : String) (s : String) : Option String :=
